@@ -11,7 +11,9 @@ import (
 	"bufio"
 	"context"
 	"encoding/json"
+	"errors"
 	"fmt"
+	"github.com/Yiling-J/theine-go/internal"
 	"os"
 	"path/filepath"
 	"runtime"
@@ -45,39 +47,88 @@ var kVal int
 // kFamily exercises one key type: keys[i] are pairs (class id, key); equal classes are equal keys
 // built differently.
 func kFamily[K comparable](tr *kTrace, ty string, keys []K, classes []int, strKey func(K) string) {
+	kFamilyMode(tr, ty, keys, classes, strKey, "plain")
+	if strKey != nil {
+		// the other builders must carry the key function along
+		kFamilyMode(tr, ty+"_loading", keys, classes, strKey, "loading")
+		kFamilyMode(tr, ty+"_hybrid", keys, classes, strKey, "hybrid")
+	}
+}
+
+type kCache[K comparable] struct {
+	set      func(k K, v int)
+	get      func(k K) (int, bool)
+	del      func(k K)
+	wait     func()
+	lenRange func() (int, int) // nil: the cache type has neither Len nor Range
+	close    func()
+}
+
+func kBuild[K comparable](strKey func(K) string, mode string) (*kCache[K], error) {
 	b := theine.NewBuilder[K, int](1000)
 	if strKey != nil {
 		b = b.StringKey(strKey)
 	}
+	switch mode {
+	case "loading":
+		c, err := b.Loading(func(ctx context.Context, k K) (theine.Loaded[int], error) {
+			return theine.Loaded[int]{}, errors.New("not there")
+		}).Build()
+		if err != nil {
+			return nil, err
+		}
+		return &kCache[K]{set: func(k K, v int) { c.Set(k, v, 1) },
+			get: func(k K) (int, bool) { v, err := c.Get(context.Background(), k); return v, err == nil },
+			del: c.Delete, wait: c.Wait, close: c.Close,
+			lenRange: func() (int, int) { n := 0; c.Range(func(k K, v int) bool { n++; return true }); return c.Len(), n }}, nil
+	case "hybrid":
+		c, err := b.Hybrid(internal.NewSimpleMapSecondary[K, int]()).Workers(1).Build()
+		if err != nil {
+			return nil, err
+		}
+		return &kCache[K]{set: func(k K, v int) { c.Set(k, v, 1) },
+			get: func(k K) (int, bool) { v, ok, _ := c.Get(k); return v, ok },
+			del: func(k K) { _ = c.Delete(k) }, wait: func() { time.Sleep(2 * time.Millisecond) }, close: c.Close}, nil
+	}
 	c, err := b.Build()
+	if err != nil {
+		return nil, err
+	}
+	return &kCache[K]{set: func(k K, v int) { c.Set(k, v, 1) }, get: c.Get, del: c.Delete, wait: c.Wait, close: c.Close,
+		lenRange: func() (int, int) { n := 0; c.Range(func(k K, v int) bool { n++; return true }); return c.Len(), n }}, nil
+}
+
+func kFamilyMode[K comparable](tr *kTrace, ty string, keys []K, classes []int, strKey func(K) string, mode string) {
+	c, err := kBuild(strKey, mode)
 	if err != nil {
 		tr.emit(map[string]any{"ev": "kerr", "ty": ty})
 		return
 	}
-	defer c.Close()
+	defer c.close()
 	tr.emit(map[string]any{"ev": "kreset", "ty": ty, "go": runtime.Version(), "padded": strings.Contains(ty, "padded")})
 	// every key is written through one representative and read through all equal ones, twice over
 	for round := 0; round < 2; round++ {
 		for i, k := range keys {
 			kVal++
-			c.Set(k, kVal, 1)
+			c.set(k, kVal)
 			tr.emit(map[string]any{"ev": "kset", "ty": ty, "class": classes[i], "v": kVal})
 			for j, k2 := range keys {
-				v, ok := c.Get(k2)
+				v, ok := c.get(k2)
 				tr.emit(map[string]any{"ev": "kget", "ty": ty, "class": classes[j], "found": b2i(ok), "v": v})
 			}
 		}
-		c.Wait()
-		n := 0
-		c.Range(func(k K, v int) bool { n++; return true })
-		tr.emit(map[string]any{"ev": "klen", "ty": ty, "len": c.Len(), "range": n})
+		c.wait()
+		if c.lenRange != nil {
+			ln, n := c.lenRange()
+			tr.emit(map[string]any{"ev": "klen", "ty": ty, "len": ln, "range": n})
+		}
 	}
 	for i, k := range keys {
 		if i%2 == 0 {
-			c.Delete(k)
+			c.del(k)
 			tr.emit(map[string]any{"ev": "kdel", "ty": ty, "class": classes[i]})
 			for j, k2 := range keys {
-				v, ok := c.Get(k2)
+				v, ok := c.get(k2)
 				tr.emit(map[string]any{"ev": "kget", "ty": ty, "class": classes[j], "found": b2i(ok), "v": v})
 			}
 		}
